@@ -68,28 +68,25 @@ func reachUnderSign(from *ssa.BasicBlock, v ssa.Value, sg int, avoid map[*ssa.Ba
 		if len(b.Succs) == 2 {
 			iff := b.Instrs[len(b.Instrs)-1].(*ssa.If)
 			if bo, ok := iff.Cond.(*ssa.BinOp); ok && bo.X == v {
-				if z, isZ := constInt(bo.Y); isZ && z == 0 {
-					var t bool
-					switch bo.Op {
-					case token.LSS:
-						t = sg < 0
-					case token.LEQ:
-						t = sg <= 0
-					case token.GTR:
-						t = sg > 0
-					case token.GEQ:
-						t = sg >= 0
-					case token.EQL:
-						t = sg == 0
-					case token.NEQ:
-						t = sg != 0
+				if k, isK := constInt(bo.Y); isK {
+					// the sign class as an interval, compared with the constant on the interval domain
+					cls := &AV{K: 'i'}
+					switch {
+					case sg < 0:
+						cls.LoInf, cls.Hi = true, -1
+					case sg == 0:
+						cls.Lo, cls.Hi = 0, 0
+					default:
+						cls.Lo, cls.HiInf = 1, true
 					}
-					if t {
+					switch cmpIv(bo.Op, cls, &AV{K: 'i', Lo: k, Hi: k}) {
+					case tYes:
 						walk(b.Succs[0])
-					} else {
+						return
+					case tNo:
 						walk(b.Succs[1])
+						return
 					}
-					return
 				}
 			}
 		}
